@@ -18,6 +18,9 @@ pub mod perp;
 
 pub(crate) mod utils;
 
+#[cfg(gmsol_verif)]
+pub use self::utils::verif_cap_pnl;
+
 pub use self::{
     base::{BaseMarket, BaseMarketExt, BaseMarketMut, BaseMarketMutExt, PnlFactorKind},
     borrowing::{
